@@ -192,6 +192,43 @@ class Alt:
         self.alts = alts  # list of (guard, value)
 
 
+class StrZ:
+    """A symbolic string (z3 String term) — used for component values of symbolic message instances."""
+    __slots__ = ("s",)
+
+    def __init__(self, s):
+        self.s = s
+
+
+class FPV:
+    """A symbolic f64 (z3 Float64 term)."""
+    __slots__ = ("f",)
+
+    def __init__(self, f):
+        self.f = f
+
+
+def to_strz(x):
+    if isinstance(x, StrZ):
+        return x.s
+    if isinstance(x, str):
+        return z3.StringVal(x)
+    if isinstance(x, Alt) and all(isinstance(v, (str, StrZ)) for _, v in x.alts):
+        out = to_strz(x.alts[-1][1])
+        for g, v in reversed(x.alts[:-1]):
+            out = z3.If(B(g), to_strz(v), out)
+        return out
+    raise Unsupported("not a string value: %r" % (x,))
+
+
+def to_fp(x):
+    if isinstance(x, FPV):
+        return x.f
+    if isinstance(x, (int, float)) and not isinstance(x, bool):
+        return z3.FPVal(float(x), z3.Float64())
+    raise Unsupported("not a float value: %r" % (x,))
+
+
 class TypeRef:
     """A path naming a type (for associated calls)."""
     __slots__ = ("name",)
@@ -331,6 +368,16 @@ def merge(c, a, b):
         return EmitV(a.items[:k] + ea + eb)
     if isinstance(a, StructV) and isinstance(b, StructV) and a.name == b.name:
         return StructV(a.name, {k: merge(c, a.fields[k], b.fields[k]) for k in a.fields})
+    if isinstance(a, StrZ) or isinstance(b, StrZ):
+        try:
+            return StrZ(z3.If(c, to_strz(a), to_strz(b)))
+        except Unsupported:
+            pass
+    if isinstance(a, FPV) or isinstance(b, FPV):
+        try:
+            return FPV(z3.If(c, to_fp(a), to_fp(b)))
+        except Unsupported:
+            pass
     if isinstance(a, PosV) and isinstance(b, int) and not isinstance(b, bool):
         b = PosV.const(b, len(a.bits) - 1)
     if isinstance(b, PosV) and isinstance(a, int) and not isinstance(a, bool):
@@ -613,7 +660,11 @@ class Machine:
         for g, rv in reversed(fr.retvals):
             out = merge(g, rv, out) if out is not None else rv
         self.depth -= 1
+        out = self.coerce_return(fn, out)
         return out, fr.vars
+
+    def coerce_return(self, fn, out):
+        return out
 
     def live(self, fr, guard):
         return And(guard, Not(fr.ret), Not(fr.brk), Not(fr.cont))
@@ -698,6 +749,8 @@ class Machine:
         if k == "plit":
             lit = pat["lit"]
             if lit["k"] == "str":
+                if isinstance(val, StrZ) or (isinstance(val, Alt) and any(isinstance(v, StrZ) for _, v in val.alts)):
+                    return to_strz(val) == z3.StringVal(lit["v"]), {}
                 conds = [g for g, v in alt_of(val) if v == lit["v"]]
                 for g, v in alt_of(val):
                     if not isinstance(v, str):
@@ -952,7 +1005,13 @@ class Machine:
             if other == "-":
                 return False   # the terminator is not a token (abstracted)
             raise Unsupported("comparison of remaining text with %r" % (other,))
+        if isinstance(a, StrZ) or isinstance(b, StrZ):
+            return to_strz(a) == to_strz(b)
+        if isinstance(a, FPV) or isinstance(b, FPV):
+            return z3.fpEQ(to_fp(a), to_fp(b))
         sa, sb = alt_of(a), alt_of(b)
+        if any(isinstance(v, StrZ) for _, v in sa) or any(isinstance(v, StrZ) for _, v in sb):
+            return to_strz(a) == to_strz(b)
         if all(isinstance(v, str) for _, v in sa) and all(isinstance(v, str) for _, v in sb):
             return Or(*[And(g1, g2) for g1, v1 in sa for g2, v2 in sb if v1 == v2])
         num = lambda x: isinstance(x, (int, bool)) or is_sym(x)
